@@ -366,6 +366,10 @@ PROPS["C16"]["rule"] += (" extra (race-detector binary, beyond the property's qu
 for _p in ("C05", "C06", "C04"):
     PROPS[_p]["rule"] += (" One history in sixteen puts one configuration field on either side of a boundary of config.verify(); the model's constructor "
                           "(TxTypes.verify_config, proved to imply the configuration hypotheses of the C06 theorems: C06_accepted_configurations) must give NewTxCache's verdict.")
+# C09 quantifies over sequential histories; overlapping flushes (a seeded change) can lose acknowledged writes for good
+PROPS["C09"]["extras"] = PROPS["C09"].get("extras", []) + [{"component": "persist", "timeout": 600}]
+PROPS["C09"]["rule"] += (" extra (beyond the sequential quantifier): 90 (quick) / 900 (thorough) rounds of 2-6 goroutines writing their own keys through one persister (DB, SerialDB, sharded over SerialDB; "
+                         "MaxBatchSize 1-5 so that size-triggered flushes overlap), then Close and a fresh persister: Get/Has/RangeKeys give exactly the last acknowledged write of every key.")
 PROPS["C16"]["coq_props"] = ["C16", "C16b"]
 PROPS["C16"]["assumptions"] = [a for a in PROPS["C16"]["assumptions"] if not a.startswith("LRU / SizeLRU / FIFOSharded satisfy cacher_laws")] + [
     "cacher_laws are PROVED for the models of the sized LRU, the plain LRU, the lruCache wrapper and the FIFO sharded cache (Props/C16b.v); those models are tied to the Go caches by the C15/C20 checks"]
